@@ -51,7 +51,7 @@ TOL = 1e-9
 
 def plan(tier, seed):
     n = 14
-    inst = 30 if tier == "quick" else 60
+    inst = 20 if tier == "quick" else 40
     specs = [{"name": "k%02d" % i, "kind": "kernel", "shard": i, "instances": inst, "timeout": 7000} for i in range(n)]
     specs.append({"name": "exch", "kind": "exchange", "shard": 90, "cases": 3000 if tier == "quick" else 40000, "timeout": 7000})
     specs.append({"name": "orch", "kind": "orch", "shard": 91, "runs": 4 if tier == "quick" else 40, "timeout": 7000})
